@@ -15,7 +15,7 @@ Op(a) == \/ (Create(a) /\ Lbl(<<"create", a>>)) \/ (Write(a) /\ Lbl(<<"write", a
          \/ (Unlink(a) /\ Lbl(<<"unlink", a>>)) \/ (MoveOut(a) /\ Lbl(<<"moveout", a>>)) \/ (MoveIn(a) /\ Lbl(<<"movein", a>>))
          \/ \E b \in Names : Rename(a, b) /\ Lbl(<<"rename", a, b>>)
 ReadAll == /\ buf = <<>> /\ out = NoEv /\ kq # <<>> /\ buf' = kq /\ kq' = <<>>
-           /\ UNCHANGED <<present, fmark, cookie, nops, tab, out, ring, ridx, evq, want, got>>
+           /\ UNCHANGED <<present, fmark, w2end, cookie, nops, tab, out, ring, ridx, evq, want, got>>
 GNext == \/ /\ ~Drained /\ (ReadAll \/ Handle \/ Send \/ Recv) /\ UNCHANGED hist
          \/ /\ Drained /\ nops < GenSteps /\ \E a \in Names : Op(a)
 GSpec == GInit /\ [][GNext]_gvars
